@@ -91,7 +91,16 @@ class ComputeRun:
             present = [([teams[k][j] for j in self.player_order[k]] if k in self.player_order else teams[k]) for k in self.order]
             if gamma_mode == "custom":
                 code_g.teams = present
-            out = call(m._compute, present, list(ranks) if ranks is not None else None)
+            import copy as _copy
+            pristine = _copy.deepcopy(present)
+
+            def one_path(i):
+                # _compute may fork (a guard, a clamp): every further path gets its own copy of the game
+                pres = present if i == 0 else _copy.deepcopy(pristine)
+                if gamma_mode == "custom":
+                    code_g.teams = pres
+                return call(m._compute, pres, list(ranks) if ranks is not None else None)
+            out = ctx.merged(one_path)
             if out[0] == "return" and (self.order != list(range(len(sizes))) or self.player_order):
                 back = [None] * len(sizes)
                 for pos, k in enumerate(self.order):
